@@ -313,6 +313,13 @@ def check_tmat(sp, T, obs, A, its):
         return [fail(sp, "tmat-lanczos", "t_mat is the %dx%d zero matrix although %d loop bodies were executed (the break of line 308 "
                      "precedes the tridiagonal update of lines 311-332)" % (m, m, its), symptom="zero-tmat")], ne
     usable = usable & (regq >= m)          # every kept row was written from a regular alpha
+    # ... and no tridiagonalised column ever froze (a frozen column stays frozen, so its final true residual is < stop)
+    xres, _ = result_full(sp, obs)
+    stop = sp.get("stop") if sp.get("stop") is not None else 1e-10
+    if xres is None:
+        return fails, ne
+    rfin = (rhs / nrm - A @ (xres / nrm)).norm(dim=-2)[..., :q]
+    usable = usable & (rfin > 2.0 * stop)
     if T["x0"] is None and m >= 1 and bool(usable.any()):
         small = its > m       # rows written after the kept block do not matter
         e1 = torch.zeros(m, dtype=F64)
